@@ -1,4 +1,4 @@
--- PINNED by bin/pin_tables: copy of Gen/Dispatch.lean as generated from /repo at b71d902 — regenerate, do not edit
+-- PINNED by bin/pin_tables: copy of Gen/Dispatch.lean as generated from /repo at 62d2131 — regenerate, do not edit
 namespace Ggql.Pinned
 def dispatchOrder : List String := ["resolver", "any", "reflect"]
 def opFallbackAnyName : Bool := false
@@ -33,6 +33,7 @@ def condByIdentity : Bool := false
 def anonAmongOthers : Bool := false
 def metaArgsUnchecked : Bool := false
 def ptrValueDistinct : Bool := false
+def unionAtMember : Bool := false
 def reflectOptionalRefused : Bool := false
 def inputDefaultsRaw : Bool := true
 def listNotCoerced : Bool := false
